@@ -11,12 +11,18 @@ import (
 	"golang.org/x/tools/go/ssa/ssautil"
 )
 
+const libPrefix = "github.com/Azbesciak/RealDecisionMaker/lib/"
+
 func (x *Exec) shouldInline(fn *ssa.Function) bool {
 	if fn.Blocks == nil {
 		return false
 	}
 	if spec := x.DB.Funcs[funcKey(fn)]; spec != nil {
 		return spec.Inline
+	}
+	if !strings.HasPrefix(funcKey(fn), libPrefix) {
+		// code outside /repo/lib (standard library, dependencies) is never executed symbolically: a model or an opaque call
+		return false
 	}
 	fi := x.info(fn)
 	return !fi.hasLoops && fi.ninstr <= x.inlineLimit
@@ -506,6 +512,15 @@ func (x *Exec) stepInvoke(st *State, fr *Frame, call *ssa.Call) ([]*State, bool)
 		key := n.Obj().Pkg().Path() + "." + n.Obj().Name() + "." + cc.Method.Name()
 		if spec := x.DB.IMeths[key]; spec != nil {
 			return x.invokeByContract(st, fr, call, spec, recv, args)
+		}
+	}
+	// a method of an embedded interface: the contract is written on the interface that declares it
+	if rv := cc.Method.Type().(*types.Signature).Recv(); rv != nil {
+		if n, ok := types.Unalias(rv.Type()).(*types.Named); ok && n.Obj().Pkg() != nil {
+			key := n.Obj().Pkg().Path() + "." + n.Obj().Name() + "." + cc.Method.Name()
+			if spec := x.DB.IMeths[key]; spec != nil {
+				return x.invokeByContract(st, fr, call, spec, recv, args)
+			}
 		}
 	}
 	x.note("interface call %s.%s is opaque: result unconstrained", cc.Value.Type(), cc.Method.Name())
